@@ -34,8 +34,17 @@ def ref_freq(K, M):
     K = dense(K)
     M = dense(M)
     act = active_set(M)
-    w2 = sl.eigh(K[np.ix_(act, act)], M[np.ix_(act, act)], eigvals_only=True)
-    return np.sqrt(np.abs(w2)) * np.sign(w2), act
+    Ka, Ma = K[np.ix_(act, act)], M[np.ix_(act, act)]
+    try:
+        # inverse form M v = mu K v (K positive definite there): the LOWEST frequencies are the largest mu and come out
+        # with a relative error eps*cond(K); the direct form loses eps*omega_max^2/omega_min^2 on them (penalty-joined
+        # assemblies: 1e-6)
+        mu = sl.eigh(Ma, Ka, eigvals_only=True)[::-1]
+        w2 = np.where(mu > 0, 1.0 / np.where(mu > 0, mu, 1.0), np.inf)
+        return np.sqrt(w2), act
+    except np.linalg.LinAlgError:
+        w2 = sl.eigh(Ka, Ma, eigvals_only=True)
+        return np.sqrt(np.abs(w2)) * np.sign(w2), act
 
 
 def backward_error(K, G, lam, v):
